@@ -5,7 +5,7 @@
 PROP=$1; V=$2
 S=${SEEDROOT:-/tmp/seeds4}/$PROP
 WT=/tmp/wt_verify4_$PROP$V
-rm -rf $WT; git -C /repo worktree prune; git -C /repo worktree add -q --detach $WT HEAD || exit 9
+rm -rf $WT; git -C /repo worktree prune; git -C /repo worktree add -q --detach $WT ${BASE:-3b7fff9} || exit 9
 export PYTHONPATH=$WT PANOPTICA_CITATION_REMINDER=false
 cd $WT
 timeout 1800 /venv/bin/python $S/demo_$V.py > $S/verify_${V}_clean.out 2>&1; rc_clean=$?
